@@ -8,11 +8,26 @@ Alphabet (every case is a complete configuration; inside it every non-origin gri
              geometric, geometric with bounds, probability step, credit) + thorough: two more credit grids
              x k = 0..3 calls of refine() x every sampling method MarkovChainProcess(model, method, grid) accepts:
              ALIAS, TABLE, BINARYSEARCHTREE, HUFFMANNTREE, INVERSION, BINARYSEARCHTREEADAPTED1D.
+             Construction routes of a model (the property quantifies over models, not over how they were reached):
+             direct (constructor called with the values); "reinit" = mc.alphabets.with_reinit: EVERY model spec of the tier
+             is followed by its twin with the same values reached through a parameter object built with other values,
+             every attribute re-assigned, initialisation(), model constructor (quick: every k; thorough: k = 0, 1);
+             "cycled" = the calibration route proper (model/utils.py calibrate_model_parameter + run_default_calibration):
+             one deep copy of the parameter object, the attribute the default calibration moves (HEM sigma, Merton mu_j,
+             CGMY c, VG sigma) set and initialisation() called three times with a model constructed and used after each,
+             the last cycle restoring the spec's value (one model per family / activity class, every grid, k = 0;
+             thorough: every quick model). For a twin the measure of the oracle is the density of the DIRECTLY constructed
+             model with the same values (keys end in :reinit / :cycled).
   copula     mc.alphabets.copula_model_specs(tier) (pairs and triples of HEM / VG / CGMY 0.5 / CGMY 1.2 / Merton margins
-             under Clayton(theta, eta), independent and completely dependent copulas; thorough: also the exponential
-             versions of the first pair / triple) x {fixed n = 3, 5; uniform h = 0.2; credit symmetric / asymmetric /
-             asymmetric with a different threshold (hence a different axis) per coordinate} x k = 0..1 calls of refine() x
-             {INVERSION, BINARYSEARCHTREEADAPTED} through MarkovChainLevyCopula(levy_copula_model, grid, method).
+             under Clayton(theta, eta), independent and completely dependent copulas; the exponential versions of the
+             first pair / triple: thorough everywhere, quick under the first copula at k = 0) x {fixed n = 3, 5; uniform
+             h = 0.2; credit symmetric / asymmetric / asymmetric with a different threshold (hence a different axis) per
+             coordinate; geometric from the model's truncation (2 points per side); geometric with the asymmetric bounds
+             (-0.7, 0.4)} x k = 0..1 calls of refine() x {INVERSION, BINARYSEARCHTREEADAPTED} through
+             MarkovChainLevyCopula(levy_copula_model, grid, method). Route "reinit": every tuple of margins with ALL margins
+             re-initialised, every grid, k = 0 (quick: under the first copula; thorough: every copula); reference =
+             the directly constructed copula model; the twin's marginal tail integrals are also compared with the
+             directly constructed margins'.
   density    (thorough; two configurations in quick) 2-d Clayton models x {fixed n = 3, 5; credit asymmetric} x k = 0..1:
              every off-axis cell (no coordinate at the origin index) against 2-d quadrature of the implied joint density
              d2F/du1du2 (U_1(x_1), U_2(x_2)) nu_1(x_1) nu_2(x_2), the mixed derivative of the Clayton formula written here.
@@ -26,7 +41,21 @@ Alphabet (every case is a complete configuration; inside it every non-origin gri
              per-configuration oracle below runs on the re-used object (keys end in :used-grid-refined or
              :next_level:<method>), and axes, h, origin index, intensity and per-state rates are compared with a chain
              on a freshly constructed grid refined as often before its first use (catches state cached on the grid
-             object that refine() does not invalidate).
+             object that refine() does not invalidate). In the direct 1-d histories, at every step, a chain on a deep
+             copy of the used grid must equal the chain on the grid, and a second grid of the same class with another h
+             (0.75 h) is built, used, refined and used in between (class-level / module-level state of the grids).
+             Re-initialised and cycled twins of one model per family / activity class take part in both kinds.
+  model-reuse (both tiers; sub "history1d"/"historynd", via "model-reuse") histories on ONE model object: a second model of
+             the same class with other parameter values (1-d: mc.alphabets.DONOR_PARAMS, built directly and re-initialised;
+             copula: the margins in reverse order under another copula) is built and used on the 3-point grid and on the
+             case's grid constructor, refined, used again - BEFORE the first use of the model and again after the model was
+             used on the 3-point grid through every method (each constructor deep-copies and truncates the model); the model
+             is deep copied. Then the complete oracle runs on the model with a grid constructed now against a reference
+             model constructed now (keys end in :model-reused), and the chain before, the chain after and the chain on the
+             deep copy must be the same (intensity, per-state rates, axes). 1-d: every model of the tier + the twins x
+             {uniform h = 0.1, geometric} (+ probability step, credit in thorough); copula: every copula model (+ reinit
+             twins) x fixed n = 5 (2-d) / 3 (3-d). Catches parameter / memo state shared through class attributes, module
+             caches or default arguments, and constructors that modify the model they are given.
 
 Observation points
   process.intensity_of_jumps (every method); samplingfactory.compute_intensity_of_jumps(process.model, grid) with the
@@ -59,13 +88,15 @@ Oracle (reference cell model computed here from the axes alone)
         axis); and the joint-density quadrature of sub-check `density`.
   (iii) every rate >= -slack.
   (iv)  sum of the rates = intensity_of_jumps of every process = compute_intensity_of_jumps = the tree's own intensity =
-        quadrature total; every route's rate of a state agrees with every other route's.
+        quadrature total; every route's rate of a state agrees with every other route's; the truncated copy of the model
+        held by each of the six processes (built one after the other from the same model object) gives the same cell masses.
   (v)   the measure held by the process is the restriction to [axis[0], axis[-1]]: density 0 outside and unchanged at the
         states, half-line masses (-inf, inner edge] and [inner edge, inf) = sums of the rates on that side, an interval
         wholly outside the bounds has mass 0. (DESIGN section 9 item 20: in the copula chain the truncation does not
         reach `mass`; the cells are inside the box, so the un-truncated joint mass is the right one. Not asserted.)
 
-Outside the alphabet: the origin state (no rate); grids whose axes are not strictly increasing with 0 at the origin index
+Outside the alphabet: the origin state (no rate); the Black-Scholes family (no jumps: no chain rates); parameter objects
+modified WITHOUT initialisation() or modified while a model built on them is in use (the library never does it); grids whose axes are not strictly increasing with 0 at the origin index
 (property C13); credit thresholds not strictly between the left truncation and -h; sampling methods a constructor does not
 accept (BINARYSEARCHTREEADAPTED in 1-d: KeyError; the q-vector methods and BINARYSEARCHTREEADAPTED1D for copulas:
 ValueError / TypeError); h below 0.0125 (= 0.1 / 2^3), dimension > 3, the 3-d joint density; where refine() puts the new
@@ -136,6 +167,9 @@ def _copula_grids(tier, d):
     ]
     # a different threshold per coordinate: the only constructor that gives the coordinates different axes
     out.append({"kind": "credit", "h": 0.1, "a_frac": [0.5, 0.3, 0.4][:d], "symmetric": False})
+    # non-uniform axes: geometric from the model's truncation (2 points per side) and with given asymmetric bounds
+    out.append({"kind": "geometric", "h": 0.1, "n_side": 2, "p": 0.99999})
+    out.append({"kind": "geometric-bounds", "h": 0.1, "bounds": [-0.7, 0.4], "n_side": 3 if d == 2 else 2})
     return out
 
 
@@ -143,7 +177,11 @@ def cases(tier):
     thorough = tier == "thorough"
     out = []
     # ---- one-dimensional chains
-    models = A.model_specs(tier)
+    direct_models = A.model_specs(tier)
+    models = A.with_reinit(direct_models)  # every spec followed by its twin reached through mutate + initialisation()
+    rep = _representative_models(direct_models) if not thorough else A.model_specs("quick")
+    rep_twins = [dict(m, via=v) for m in _representative_models(direct_models) for v in ("reinit", "cycled")]
+    quick_twins = [dict(m, via=v) for m in A.model_specs("quick") for v in ("reinit", "cycled")]
     grids = A.grid_specs(tier, 1)
     if thorough:
         grids = grids + [{"kind": "credit", "h": 0.05, "a_frac": 0.5, "symmetric": True},
@@ -151,7 +189,13 @@ def cases(tier):
     for k in range(4):
         for g in grids:
             for m in models:
+                if thorough and k > 1 and m.get("via"):
+                    continue  # thorough: the re-initialised twins of the large model menu at 0 and 1 refinements only
                 out.append({"sub": "chain1d", "model": m, "grid": dict(g, refine=k)})
+    for g in grids:
+        for m in (quick_twins if thorough else rep_twins):
+            if m["via"] == "cycled":  # the calibration route proper, unrefined grids
+                out.append({"sub": "chain1d", "model": m, "grid": dict(g, refine=0)})
     # ---- copula chains
     cm = A.copula_model_specs(tier)
     cm = sorted(cm, key=lambda s: len(s["margins"]))
@@ -159,17 +203,27 @@ def cases(tier):
         for spec in cm:
             d = len(spec["margins"])
             exps = [False]
-            if thorough and spec["margins"] in (["hem", "vg"], ["hem", "vg", "cgmy05"]):
+            if spec["margins"] in (["hem", "vg"], ["hem", "vg", "cgmy05"]) and (
+                    thorough or (k == 0 and spec["copula"] == cm[0]["copula"])):
                 exps = [False, True]
             for exp in exps:
                 for g in _copula_grids(tier, d):
                     out.append({"sub": "copula", "model": spec, "exp": exp, "grid": dict(g, refine=k)})
+    # copula models whose margins were all reached through mutate + initialisation(): every tuple of margins, under the
+    # first copula of the menu (quick) / every copula (thorough), every grid constructor, unrefined
+    seen_margins = set()
+    for spec in cm:
+        key = tuple(spec["margins"])
+        if not thorough and key in seen_margins:
+            continue
+        seen_margins.add(key)
+        for g in _copula_grids(tier, len(key)):
+            out.append({"sub": "copula", "model": dict(spec, via="reinit"), "exp": False, "grid": dict(g, refine=0)})
     # ---- histories on one grid object (use, refine, use again), directly and through the couplings' next_level
-    hist_models = models  # direct: every model of the tier
+    hist_models = direct_models + rep_twins
     for g in grids:
         for m in hist_models:
             out.append({"sub": "history1d", "via": "direct", "model": m, "grid": dict(g, refine=0), "depth": 3})
-    rep = _representative_models(models) if not thorough else A.model_specs("quick")
     cgrids = [g for g in A.grid_specs("quick", 1) if not (g["kind"] == "uniform" and g["h"] == 0.2)] if thorough else [
         {"kind": "uniform", "h": 0.1, "p": 0.99999}, {"kind": "fixed", "h": 0.1, "n": 5},
         {"kind": "geometric", "h": 0.1, "n_side": 3, "p": 0.99999}, {"kind": "probability", "h": 0.1, "pmin": 0.2},
@@ -178,6 +232,17 @@ def cases(tier):
         for m in rep:
             for meth in METHODS_1D:
                 out.append({"sub": "history1d", "via": "next_level", "method": meth, "model": m, "grid": dict(g, refine=0), "depth": 2})
+        for m in rep_twins:
+            for meth in (["ALIAS", "BINARYSEARCHTREEADAPTED1D"] if m["via"] == "reinit" else ["INVERSION"]):
+                out.append({"sub": "history1d", "via": "next_level", "method": meth, "model": m, "grid": dict(g, refine=0), "depth": 2})
+    # histories on ONE model object: used on a narrow grid, a second model of the same class built and used in between, deep
+    # copied - then the complete oracle on it against a freshly constructed reference model
+    rgrids = [{"kind": "uniform", "h": 0.1, "p": 0.99999}, {"kind": "geometric", "h": 0.1, "n_side": 3, "p": 0.99999}]
+    if thorough:
+        rgrids += [{"kind": "probability", "h": 0.1, "pmin": 0.2}, {"kind": "credit", "h": 0.1, "a_frac": 0.5, "symmetric": True}]
+    for g in rgrids:
+        for m in direct_models + (quick_twins if thorough else rep_twins):
+            out.append({"sub": "history1d", "via": "model-reuse", "model": m, "grid": dict(g, refine=0), "depth": 0})
     hgrids = [{"kind": "fixed", "h": 0.1, "n": 3}, {"kind": "uniform", "h": 0.2, "p": 0.99999},
               {"kind": "credit", "h": 0.1, "a_frac": [0.5, 0.3, 0.4], "symmetric": False}]
     for spec in cm:
@@ -194,6 +259,14 @@ def cases(tier):
                 if d == 3 and not thorough:
                     continue
                 out.append({"sub": "historynd", "via": "next_level", "method": meth, "model": spec, "exp": False, "grid": g, "depth": depth})
+    for spec in cm:
+        d = len(spec["margins"])
+        for via in ("direct", "reinit"):
+            if via == "reinit" and not thorough and spec["copula"] != cm[0]["copula"]:
+                continue
+            sp = spec if via == "direct" else dict(spec, via="reinit")
+            out.append({"sub": "historynd", "via": "model-reuse", "model": sp, "exp": False,
+                        "grid": {"kind": "fixed", "h": 0.1, "n": 5 if d == 2 else 3, "refine": 0}, "depth": 0})
     # ---- joint density (2-d Clayton)
     clay2 = [s for s in cm if len(s["margins"]) == 2 and s["copula"]["kind"] == "clayton"]
     if not thorough:
@@ -354,10 +427,70 @@ def _spied_mass(model):
 
 
 def _family_class(spec):
+    """input class of a 1-d model spec in the violation keys; the construction route is part of it, so that a finding on the
+    directly constructed models does not hide one on the re-initialised ones"""
     fam = spec["family"]
     if fam == "cgmy":
-        return f"cgmy:y={spec['params']['y']}"
-    return fam
+        fam = f"cgmy:y={spec['params']['y']}"
+    return fam + (f":{spec['via']}" if spec.get("via") else "")
+
+
+def _direct(spec):
+    return {k: v for k, v in spec.items() if k != "via"}
+
+
+# the parameter the library's default calibration moves (model/utils.py default_calibration), with two other admissible values
+CYCLED = {"hem": ("sigma", [0.3, 0.01]), "merton": ("mu_j", [0.2, 0.05]), "cgmy": ("c", [3.0, 0.2]), "vg": ("sigma", [0.4, 0.05])}
+
+
+def _make_model(spec):
+    """A.make_model (routes: direct, "reinit"), plus the route "cycled": what calibrate_model_parameter + run_default_calibration
+    do - ONE deep copy of the parameter object on which the calibrated attribute is set and initialisation() called several
+    times, a model constructed on it (and used) after every cycle, the last cycle restoring the spec's own value; the model
+    of the last cycle is returned (the earlier ones share its parameter object)."""
+    if spec.get("via") != "cycled":
+        return A.make_model(spec)
+    import copy
+
+    target = A.make_model(_direct(spec))
+    holder = target.levy_model if spec.get("exp") else target
+    params = copy.deepcopy(holder.parameters)
+    name, values = CYCLED[spec["family"]]
+    model = None
+    for v in values + [getattr(holder.parameters, name)]:
+        setattr(params, name, v)
+        params.initialisation()
+        if spec.get("exp"):
+            model = type(target)(spot=spec.get("spot", 100.0), r=spec["r"], d=spec["d"], parameters=params)
+        else:
+            model = type(target)(parameters=params)
+        model.mass(-1.0, -0.05), model.mass(0.05, 1.0)
+    return model
+
+
+def _reference_model_1d(spec, model):
+    """the model whose density defines the measure of the oracle: the model itself when it was constructed directly from
+    its parameter values, a directly constructed model with the same values when it was reached another way"""
+    return model if spec.get("via") is None else A.make_model(_direct(spec))
+
+
+def _copula_class(spec):
+    return spec["copula"]["kind"] + (":reinit" if spec.get("via") == "reinit" else "")
+
+
+def _make_copula_model(spec, exp=False):
+    """A.make_copula_model, plus the route "reinit": every margin reached through mutate + initialisation()"""
+    if spec.get("via") != "reinit":
+        return A.make_copula_model(spec, exp=exp)
+    from rpylib.model.utils import create_levy_copula_model
+
+    models = []
+    for name in spec["margins"]:
+        ms = dict(A.MARGINS[name], via="reinit")
+        if exp or spec.get("exp"):
+            ms = dict(ms, exp=True, r=0.02, d=0.0, spot=100.0)
+        models.append(A.make_model(ms))
+    return create_levy_copula_model(models=models, copula=A.make_copula(spec["copula"]))
 
 
 def _activity_class(nu):
@@ -488,20 +621,21 @@ def _chain1d(sh, case):
     gk = case["grid"]["kind"]
     fam = _family_class(case["model"])
     tag = f"{gk}:{fam}"
-    model = A.make_model(case["model"])
+    model = _make_model(case["model"])
     try:
         grid = A.make_grid(case["grid"], model, 1)
     except A.OutsideAlphabet:
         sh.count("outside-alphabet-grid")
         return
-    _oracle_1d(sh, case, model, grid, tag)
+    _oracle_1d(sh, case, model, grid, tag, ref_model=_reference_model_1d(case["model"], model))
 
 
-def _oracle_1d(sh, case, model, grid, tag, given=None, given_vectors=None, refine=None):
+def _oracle_1d(sh, case, model, grid, tag, given=None, given_vectors=None, refine=None, ref_model=None):
     """the complete per-configuration oracle on `grid` as it is now. given=None: a chain is built on the grid through every
     method of METHODS_1D; given={method: process}: processes the library built itself on that grid object (the
     fine_process of a coupling after next_level) are observed instead, given_vectors the probability vectors recorded
-    while they were built. Returns a summary (axis, h, origin index, intensity, q-vector) or None."""
+    while they were built. ref_model: the model whose density is the measure of the oracle (default: `model` itself).
+    Returns a summary (axis, h, origin index, intensity, q-vector) or None."""
     from rpylib.distribution import samplingfactory as SF
     from rpylib.distribution.sampling import SamplingMethod
     from rpylib.process.markovchain.markovchain import MarkovChainProcess
@@ -510,7 +644,7 @@ def _oracle_1d(sh, case, model, grid, tag, given=None, given_vectors=None, refin
     fam = _family_class(case["model"])
     history = given is not None or refine is not None
     refine = case["grid"].get("refine", 0) if refine is None else refine
-    nu0 = model.levy_triplet.nu
+    nu0 = (model if ref_model is None else ref_model).levy_triplet.nu
     axis = [float(x) for x in grid.axes[0]]
     o = int(grid.origin_coordinate.value)
     n = len(axis)
@@ -525,6 +659,8 @@ def _oracle_1d(sh, case, model, grid, tag, given=None, given_vectors=None, refin
     sh.cls(f"grid:{gk}")
     sh.cls(f"model:{fam}{':exp' if case['model'].get('exp') else ''}")
     sh.cls(f"refine:{refine}")
+    if case["model"].get("via"):
+        sh.cls(f"route:{case['model']['via']}:{case['model']['family']}")
     sh.cls(f"measure:{_activity_class(nu0)}")
     sh.cls("axis:symmetric" if all(abs(axis[i] + axis[n - 1 - i]) < 1e-15 for i in range(n)) else "axis:asymmetric")
 
@@ -667,6 +803,23 @@ def _oracle_1d(sh, case, model, grid, tag, given=None, given_vectors=None, refin
     except Exception as e:  # noqa
         sh.violation(f"C01:rates:model.mass:raises-{type(e).__name__}:{tag}", f"{e!r}"[:300], None)
 
+    # (e') the truncated copy held by every other process (built later from the same model object) gives the same masses
+    if "model.mass" in routes:
+        for meth, p in procs.items():
+            if p is p0:
+                continue
+            try:
+                for k in idx:
+                    sh.count("evaluations")
+                    v = float(p.model.mass(bounds[k], bounds[k + 1]))
+                    if not _close_same(v, routes["model.mass"][k], lam):
+                        sh.violation(f"C01:agreement:model.mass:differs-between-processes-built-from-the-same-model:{tag}",
+                                     f"state {k} x={axis[k]!r}: mass of the cell through the model of the {meth} process {v!r}, through the first process built {routes['model.mass'][k]!r}",
+                                     {"k": k, "method": meth, "observed": v, "first": routes["model.mass"][k]})
+                        break
+            except Exception as e:  # noqa
+                sh.violation(f"C01:rates:model.mass:raises-{type(e).__name__}:{tag}", f"{meth}: {e!r}"[:300], None)
+
     # ---- (ii) (iii) per state, per route
     compared = 0
     for name, r in routes.items():
@@ -793,7 +946,7 @@ def _oracle_1d(sh, case, model, grid, tag, given=None, given_vectors=None, refin
     if history:
         return summary
     if int(core.digest(case), 16) % 8 == 0 and "q-vector" in routes:
-        model2 = A.make_model(case["model"])
+        model2 = _make_model(case["model"])
         grid2 = A.make_grid(case["grid"], model2, 1)
         meth2 = next(iter(procs))
         p2 = MarkovChainProcess(model=model2, method=SamplingMethod[meth2], grid=grid2)
@@ -814,14 +967,19 @@ def _oracle_1d(sh, case, model, grid, tag, given=None, given_vectors=None, refin
 # ----------------------------------------------------------------------------------------------------------------------
 
 class _CopulaCtx:
-    def __init__(self, sh, case, model=None, grid=None):
+    def __init__(self, sh, case, model=None, grid=None, ref_model=None):
+        """ref_model: the copula model whose margins' densities and copula function define the measure of the oracle;
+        default: the model itself when its margins were constructed directly, a directly constructed twin otherwise"""
         self.case = case
         spec = case["model"]
         self.d = len(spec["margins"])
-        self.model = model if model is not None else A.make_copula_model(spec, exp=case.get("exp", False))
+        self.model = model if model is not None else _make_copula_model(spec, exp=case.get("exp", False))
         self.grid = grid if grid is not None else A.make_grid(case["grid"], self.model, self.d)
-        self.nus = [m.levy_triplet.nu for m in self.model.models]
-        self.copula = self.model.copula
+        if ref_model is None:
+            ref_model = self.model if spec.get("via") is None else A.make_copula_model(_direct(spec), exp=case.get("exp", False))
+        self.ref_model = ref_model
+        self.nus = [m.levy_triplet.nu for m in ref_model.models]
+        self.copula = ref_model.copula
         self.axes = [[float(x) for x in ax] for ax in self.grid.axes]
         self.orig = [int(c) for c in self.grid.origin_coordinate]
         self.ok = all(_axis_ok(ax, o) for ax, o in zip(self.axes, self.orig))
@@ -851,7 +1009,7 @@ class _CopulaCtx:
 
 def _copula(sh, case):
     gk = case["grid"]["kind"]
-    ck = case["model"]["copula"]["kind"]
+    ck = _copula_class(case["model"])
     d = len(case["model"]["margins"])
     tag = f"{gk}:d={d}:{ck}"
     try:
@@ -871,6 +1029,8 @@ def _oracle_nd(sh, case, ctx, tag, given=None, refine=None):
     gk = case["grid"]["kind"]
     ck = case["model"]["copula"]["kind"]
     d = len(case["model"]["margins"])
+    if case["model"].get("via"):
+        sh.cls(f"route:{case['model']['via']}:copula:d={d}")
     history = given is not None or refine is not None
     refine = case["grid"].get("refine", 0) if refine is None else refine
     if not ctx.ok:
@@ -903,6 +1063,18 @@ def _oracle_nd(sh, case, ctx, tag, given=None, refine=None):
                 sh.violation(f"C01:copula:margin-tail-integral:differs-from-density-integral:{mname}",
                              f"margin {i} ({mname}): nu.integrate over {'(-inf, %r]' % b if b < 0 else '(%r, inf)' % b} = {got!r}, quadrature of the density = {v!r}",
                              {"margin": mname, "x": b, "closed_form": got, "quadrature": v})
+        if ctx.ref_model is not model:
+            # margins reached another way than by direct construction (or re-used after a history): same tail integrals
+            nu_m = model.models[i].levy_triplet.nu
+            route = case["model"].get("via") or "reused"
+            for j, b in enumerate(bs):
+                sh.count("evaluations")
+                got = float(O.tail_integral_1d(nu_m, b))
+                if not core.close(got, ctx.U[i][j], rtol=1e-12, atol=64 * EPS * u_scale):
+                    sh.violation(f"C01:copula:margin-tail-integral:differs-from-the-directly-constructed-margin:{mname}:{route}",
+                                 f"margin {i} ({mname}) at {b!r}: tail integral {got!r}, directly constructed margin with the same parameter values {ctx.U[i][j]!r}",
+                                 {"margin": mname, "x": b, "observed": got, "expected": ctx.U[i][j]})
+                    break
 
     # ---- processes
     procs = dict(given or {})
@@ -1158,6 +1330,8 @@ def _compare_with_fresh(sh, tag, level, reused, fresh):
 
 
 def _history1d(sh, case):
+    import copy
+
     from rpylib.distribution.sampling import SamplingMethod
     from rpylib.process.coupling.couplingmarkovchain import CouplingMarkovChain
 
@@ -1165,7 +1339,10 @@ def _history1d(sh, case):
     fam = _family_class(case["model"])
     via = case["via"]
     depth = case["depth"]
-    model = A.make_model(case["model"])
+    if via == "model-reuse":
+        return _history_model_reuse_1d(sh, case)
+    model = _make_model(case["model"])
+    ref_model = _reference_model_1d(case["model"], model)
     g0 = dict(case["grid"], refine=0)
     try:
         grid = A.make_grid(g0, model, 1)
@@ -1179,12 +1356,25 @@ def _history1d(sh, case):
             if level:
                 grid.refine()
             # the oracle builds a chain on `grid` through every method: that is the "use" before the next refinement
-            reused = _oracle_1d(sh, case, model, grid, tag if level else f"{gk}:{fam}", refine=level)
+            reused = _oracle_1d(sh, case, model, grid, tag if level else f"{gk}:{fam}", refine=level, ref_model=ref_model)
             if level:
-                fresh_model = A.make_model(case["model"])
+                fresh_model = _make_model(case["model"])
                 fresh_grid = A.make_grid(dict(g0, refine=level), fresh_model, 1)
                 fresh = _light_summary_1d(fresh_model, fresh_grid)
                 _compare_with_fresh(sh, tag, level, reused, fresh)
+            # a deep copy of the used grid is the same grid
+            if reused is not None:
+                _compare_summaries(sh, f"C01:history:grid:chain-on-deep-copy-of-the-used-grid-differs:{gk}:{fam}",
+                                   f"deep copy of the grid after {level} refinement(s)", _light_summary_1d(model, copy.deepcopy(grid)),
+                                   reused)
+            # a second grid of the same class with another h, used, refined, used again in between
+            try:
+                other = A.make_grid(dict(g0, h=0.75 * g0["h"]), model, 1)
+                _light_summary_1d(model, other)
+                other.refine()
+                _light_summary_1d(model, other)
+            except A.OutsideAlphabet:
+                pass
         sh.count("histories")
         return
     # through the real coupling: fine_process at level l is a chain built by next_level on the refined grid object
@@ -1209,10 +1399,163 @@ def _history1d(sh, case):
                 sh.violation(f"C01:history:CouplingMarkovChain:next_level-raises-{type(e).__name__}:{tag}", f"level {level}: {e!r}"[:300], None)
                 return
             vecs = {meth: cap.vec} if (cap is not None and cap.vec is not None) else {}
-            reused = _oracle_1d(sh, case, model, cp.grid, tag, given={meth: cp.fine_process}, given_vectors=vecs, refine=level)
-            fresh_model = A.make_model(case["model"])
+            reused = _oracle_1d(sh, case, model, cp.grid, tag, given={meth: cp.fine_process}, given_vectors=vecs, refine=level,
+                                ref_model=ref_model)
+            fresh_model = _make_model(case["model"])
             fresh_grid = A.make_grid(dict(g0, refine=level), fresh_model, 1)
             _compare_with_fresh(sh, tag, level, reused, _light_summary_1d(fresh_model, fresh_grid))
+    sh.count("histories")
+
+
+def _compare_summaries(sh, key, what, a, b):
+    """two light summaries that must describe the same chain (same closed forms on the same parameter values)"""
+    if a is None or b is None:
+        sh.count("history-comparison-skipped")
+        return
+    for field in ("axes", "axis", "h", "origin"):
+        if field in a:
+            sh.count("evaluations")
+            if a[field] != b[field]:
+                sh.violation(f"{key}:{field}-differs", f"{what}: {field} differs", None)
+                return
+    sh.count("evaluations")
+    if not _close_same(a["intensity"], b["intensity"], b["intensity"]):
+        sh.violation(f"{key}:intensity-differs", f"{what}: intensity_of_jumps {a['intensity']!r} vs {b['intensity']!r}",
+                     {"first": a["intensity"], "second": b["intensity"]})
+    for field in ("q", "mass"):
+        if a.get(field) is not None and b.get(field) is not None:
+            sh.count("evaluations")
+            if len(a[field]) != len(b[field]) or any(
+                    not core.close(x, y, rtol=1e-12, atol=1e-15 * b["intensity"]) for x, y in zip(a[field], b[field])):
+                sh.violation(f"{key}:rates-differ", f"{what}: per-state rates differ", None)
+
+
+def _history_model_reuse_1d(sh, case):
+    """history on ONE model object: (0) after its construction a second model of the same class with other parameter values
+    is built (directly and through mutate + initialisation()) and used on the 3-point grid and on the case's grid
+    constructor, refined, used again; (1) chains are built with the first model on the 3-point grid through every method
+    (every constructor deep copies and truncates the model); (2) the second model is built and used again; (3) the model is
+    deep copied. Then the complete oracle on the model with a grid constructed now, against a reference model constructed
+    now; and the chain of before (1), the chain after (2) and the chain on the deep copy must be the same."""
+    import copy
+
+    from rpylib.distribution.sampling import SamplingMethod
+    from rpylib.process.markovchain.markovchain import MarkovChainProcess
+
+    spec = case["model"]
+    gk = case["grid"]["kind"]
+    fam = _family_class(spec)
+    tag = f"{gk}:{fam}:model-reused"
+    g0 = dict(case["grid"], refine=0)
+    model = _make_model(spec)
+    sh.cls("history:1d:model-reuse")
+    donor_spec = dict(_direct(spec), params=A.DONOR_PARAMS[spec["family"]])
+
+    def use_a_second_model():
+        # on the 3-point grid, on the case's own grid constructor (same interior states where the constructor takes them
+        # from h alone) and refined once: the second model evaluates its measure at the points the first one uses
+        for dsp in (donor_spec, dict(donor_spec, via="reinit")):
+            donor = _make_model(dsp)
+            for gs in ({"kind": "fixed", "h": 0.1, "n": 3}, g0):
+                try:
+                    dgrid = A.make_grid(gs, donor, 1)
+                except A.OutsideAlphabet:
+                    continue
+                for level in range(2):
+                    if level:
+                        dgrid.refine()
+                    for meth in ("ALIAS", "INVERSION", "BINARYSEARCHTREEADAPTED1D"):
+                        MarkovChainProcess(model=donor, method=SamplingMethod[meth], grid=dgrid)
+
+    try:
+        use_a_second_model()
+        before = _light_summary_1d(model, A.make_grid(g0, model, 1))
+    except A.OutsideAlphabet:
+        sh.count("outside-alphabet-grid")
+        return
+    except Exception as e:  # noqa
+        sh.violation(f"C01:history:model:operation-raises-{type(e).__name__}:{tag}", f"{e!r}"[:300], None)
+        return
+    try:
+        narrow = A.make_grid({"kind": "fixed", "h": 0.1, "n": 3}, model, 1)
+        for meth in METHODS_1D:
+            MarkovChainProcess(model=model, method=SamplingMethod[meth], grid=narrow)
+        use_a_second_model()
+        clone = copy.deepcopy(model)
+        grid = A.make_grid(g0, model, 1)
+        after = _light_summary_1d(model, A.make_grid(g0, model, 1))
+        cloned = _light_summary_1d(clone, A.make_grid(g0, clone, 1))
+    except Exception as e:  # noqa
+        sh.violation(f"C01:history:model:operation-raises-{type(e).__name__}:{tag}", f"{e!r}"[:300], None)
+        return
+    ref_model = A.make_model(_direct(spec))
+    _oracle_1d(sh, case, model, grid, tag, refine=0, ref_model=ref_model)
+    _compare_summaries(sh, f"C01:history:model:chain-after-other-uses-differs-from-chain-before:{tag}",
+                       "the model used on a narrow grid, a second model of its class used in between", after, before)
+    _compare_summaries(sh, f"C01:history:model:chain-on-deep-copy-differs:{tag}", "deep copy of the model", cloned, before)
+    sh.count("histories")
+
+
+def _history_model_reuse_nd(sh, case):
+    """the same for ONE Levy-copula model object: a second copula model with the margins in reverse order under another
+    copula (margins built directly and through mutate + initialisation()) is used on the 3-point grid and on the case's
+    grid before the first use and again after the model was used on the 3-point grid through both methods; deep copy."""
+    import copy
+
+    from rpylib.distribution.sampling import SamplingMethod
+    from rpylib.process.markovchain.markovchainlevycopula import MarkovChainLevyCopula
+
+    spec = case["model"]
+    gk = case["grid"]["kind"]
+    d = len(spec["margins"])
+    tag = f"{gk}:d={d}:{_copula_class(spec)}:model-reused"
+    exp = case.get("exp", False)
+    model = _make_copula_model(spec, exp=exp)
+    sh.cls(f"history:{d}d:model-reuse")
+
+    def light(m):
+        ctx = _CopulaCtx(sh, case, model=m, grid=A.make_grid(case["grid"], m, d), ref_model=m)
+        if not ctx.ok:
+            return None
+        p = MarkovChainLevyCopula(levy_copula_model=m, grid=ctx.grid, method=SamplingMethod.INVERSION)
+        return {"axes": [[x.hex() for x in ax] for ax in ctx.axes], "h": float(ctx.grid.h).hex(), "origin": list(ctx.orig),
+                "intensity": float(p.intensity_of_jumps), "mass": [float(p.model.mass(*ctx.cell(idx))) for idx in ctx.states()]}
+
+    other_copula = {"kind": "independent"} if spec["copula"]["kind"] != "independent" else {"kind": "clayton", "theta": 3.0, "eta": 1.0}
+
+    def use_a_second_model():
+        for via in (None, "reinit"):
+            osp = {"margins": list(reversed(spec["margins"])), "copula": other_copula}
+            other = _make_copula_model(dict(osp, via=via) if via else osp, exp=exp)
+            for gs in ({"kind": "fixed", "h": 0.1, "n": 3}, case["grid"]):
+                ogrid = A.make_grid(gs, other, d)
+                for meth in METHODS_ND:
+                    MarkovChainLevyCopula(levy_copula_model=other, grid=ogrid, method=SamplingMethod[meth])
+
+    with _no_vol_adjustment_pool():
+        try:
+            use_a_second_model()
+            before = light(model)
+            narrow = A.make_grid({"kind": "fixed", "h": 0.1, "n": 3}, model, d)
+            for meth in METHODS_ND:
+                MarkovChainLevyCopula(levy_copula_model=model, grid=narrow, method=SamplingMethod[meth])
+            use_a_second_model()
+            clone = copy.deepcopy(model)
+            after = light(model)
+            cloned = light(clone)
+            grid = A.make_grid(case["grid"], model, d)
+        except A.OutsideAlphabet:
+            sh.count("outside-alphabet-grid")
+            return
+        except Exception as e:  # noqa
+            sh.violation(f"C01:history:model:operation-raises-{type(e).__name__}:{tag}", f"{e!r}"[:300], None)
+            return
+    ref_model = A.make_copula_model(_direct(spec), exp=exp)
+    ctx = _CopulaCtx(sh, case, model=model, grid=grid, ref_model=ref_model)
+    _oracle_nd(sh, case, ctx, tag, refine=0)
+    _compare_summaries(sh, f"C01:history:model:chain-after-other-uses-differs-from-chain-before:{tag}",
+                       "the copula model used on a narrow grid, a second copula model used in between", after, before)
+    _compare_summaries(sh, f"C01:history:model:chain-on-deep-copy-differs:{tag}", "deep copy of the copula model", cloned, before)
     sh.count("histories")
 
 
@@ -1246,11 +1589,13 @@ def _historynd(sh, case):
     from rpylib.process.coupling.couplinglevycopula import CouplingProcessLevyCopula
 
     gk = case["grid"]["kind"]
-    ck = case["model"]["copula"]["kind"]
+    ck = _copula_class(case["model"])
     d = len(case["model"]["margins"])
     via = case["via"]
     depth = case["depth"]
-    model = A.make_copula_model(case["model"], exp=case.get("exp", False))
+    if via == "model-reuse":
+        return _history_model_reuse_nd(sh, case)
+    model = _make_copula_model(case["model"], exp=case.get("exp", False))
     g0 = dict(case["grid"], refine=0)
     try:
         grid = A.make_grid(g0, model, d)
@@ -1397,7 +1742,10 @@ REQUIRED_CLASSES = (
     + [f"refine:{k}" for k in range(4)] + [f"refine:{k}:d={d}" for d in (2, 3) for k in range(2)]
     + ["measure:finite-activity", "measure:infinite-activity-finite-variation", "measure:infinite-variation",
        "axes:identical", "axes:different-per-coordinate", "density:same-signs:fixed", "density:opposite-signs:fixed",
-       "history:1d:direct", "history:1d:next_level", "history:2d:direct", "history:2d:next_level", "history:3d:direct"]
+       "history:1d:direct", "history:1d:next_level", "history:2d:direct", "history:2d:next_level", "history:3d:direct",
+       "history:1d:model-reuse", "history:2d:model-reuse", "history:3d:model-reuse",
+       "route:reinit:copula:d=2", "route:reinit:copula:d=3"]
+    + [f"route:{v}:{f}" for f in ("hem", "merton", "vg", "cgmy") for v in ("reinit", "cycled")]
 )
 
 
